@@ -653,3 +653,39 @@ func rulesPassAllFor(c *Ctx, r *Report, rel string, names []string, floor int) {
 	}
 	r.floor("PASS-ALL", n, floor, "iterator layers between read() and the consumer in "+rel)
 }
+
+// condOutcomesTrue evaluates a condition node under "target returned true and was evaluated".
+func condOutcomesTrue(n ast.Node, target *ast.CallExpr) (int, bool) {
+	e, ok := n.(ast.Expr)
+	if !ok {
+		return mayT | mayF, false
+	}
+	o, has := condOutcomes(e, target) // outcomes under target == false
+	if !has {
+		return mayT | mayF, false
+	}
+	// for the shapes that occur (`!f(x)`, `f(x)`, `a && !f(x)`), flipping the target flips a determined outcome
+	switch o {
+	case mayT:
+		return mayF, true
+	case mayF:
+		return mayT, true
+	}
+	return mayT | mayF, true
+}
+
+// containsStreamRead: the node calls a method from the stream source table.
+func containsStreamRead(info *types.Info, n ast.Node) bool {
+	found := false
+	inspectNoLit(n, func(m ast.Node) bool {
+		if call, ok := m.(*ast.CallExpr); ok {
+			if fo := calleeOfExpr(info, call); fo != nil {
+				if _, ok := streamSources[fo.FullName()]; ok {
+					found = true
+				}
+			}
+		}
+		return true
+	})
+	return found
+}
